@@ -74,7 +74,7 @@ theorem killStep_jx {X : List Nat} {s : State} (h : NInv s) (j : J X s) (t : Nat
     (ht : ∀ th, thFind s.threads t = some th → th.inst ∈ X) : J X (killStep s t) :=
   (jqAll defaultFuel).dt X _ t (h.setTh t _)
     (j.setTh_unchained t (fun th => { th with attached := false }) (j.unchained_of_exempt ht) (fun _ => rfl)
-      (fun _ hx => hx))
+      (fun _ hx => hx) (Or.inr fun _ hx => hx))
 
 /-- the records with a VM that belong to instance `i` are all in `L` -/
 def Rm (i : Nat) (s : State) (L : List Nat) : Prop :=
@@ -115,7 +115,7 @@ theorem killInst_j {s : State} (hn : NInv s) (j : J [] s) (i : Nat) : NInv (kill
     have hn1 : NInv ({ s with insts := s.insts.filter (fun e => !(e.1 == i)) } : State) :=
       hn.congr rfl rfl rfl rfl rfl rfl rfl rfl rfl
     have j1 : J [i] ({ s with insts := s.insts.filter (fun e => !(e.1 == i)) } : State) := by
-      refine ⟨?_, ?_, j.c, ?_⟩
+      refine ⟨?_, ?_, j.c, ?_, j.e⟩
       · intro u th hf hv
         by_cases hi : th.inst = i
         · left; simp [hi]
@@ -147,7 +147,7 @@ theorem killInst_j {s : State} (hn : NInv s) (j : J [] s) (i : Nat) : NInv (kill
       · cases m
       · rw [hi, hchain] at m; exact m
     obtain ⟨n2, j2, r2⟩ := killFold_j i chain _ hn1 j1 hinst hr
-    refine ⟨n2, ?_, j2.b, j2.c, fun i' hi' => by cases hi'⟩
+    refine ⟨n2, ?_, j2.b, j2.c, (fun i' hi' => by cases hi'), j2.e⟩
     intro u th hf hv
     rcases j2.a u th hf hv with m | m
     · have hi : th.inst = i := by simpa using m
@@ -178,7 +178,9 @@ theorem J.mapAll {X : List Nat} {s : State} (h : J X s) (g : Th → Th)
     cases hf : thFind s.threads u with
     | none => rw [hf] at hu; cases hu
     | some th => rw [hf] at hu; simp at hu; exact ⟨th, rfl, hu.symm⟩
-  refine ⟨?_, ?_, ?_, h.d⟩
+  refine ⟨?_, ?_, ?_, h.d, fun ev he => by
+    obtain ⟨th, k1, k2⟩ := h.e ev he
+    exact ⟨g th, by show thFind (s.threads.map _) ev.1 = _; rw [thFind_mapAll, k1]; rfl, by rw [hvm]; exact k2⟩⟩
   · intro u th' hu hv
     obtain ⟨th, h1, h2⟩ := hfind u th' hu
     subst h2
@@ -231,7 +233,9 @@ theorem processEvents_j : ∀ (fuel : Nat) (s : State), Inv [] [] none s → J [
       · exact Ok.pure j
       · rename_i t due rest _ _
         have i0 : Inv [] [] none ({ s with events := rest } : State) := h.congr rfl rfl rfl rfl rfl rfl rfl rfl rfl
-        have j0 : J [] ({ s with events := rest } : State) := j.congr rfl rfl rfl
+        rename_i hev _
+        have j0 : J [] ({ s with events := rest } : State) :=
+          j.eventsSub rfl rfl rfl (fun ev he => by rw [hev]; exact List.mem_cons_of_mem _ he)
         exact (deliver_inv i0 t).bind' (processEvents_hr fuel _).oof
           (fun i1 => processEvents_j fuel _ i1 (deliver_j i0 j0 t))
 
@@ -242,7 +246,7 @@ structure HInv2 (s : State) : Prop where
 
 theorem hinv2_init : HInv2 ({} : State) :=
   ⟨hinv_init, ⟨fun t th hf => by simp [thFind] at hf, fun e he => by simp at he,
-    fun t th hf => by simp [thFind] at hf, fun i hi => by cases hi⟩⟩
+    fun t th hf => by simp [thFind] at hf, (fun i hi => by cases hi), (fun ev he => by cases he)⟩⟩
 
 theorem HostOp.apply_hinv2 {s : State} (h : HInv2 s) (op : HostOp) (hok : op.ok) :
     Ok (op.apply s) (HInv2 (op.apply s)) := by
